@@ -193,6 +193,12 @@ func genMixedRequest(r *core.Rand, id int, limit int, allowFaults bool) ReqSpec 
 		sp.Fault.Err = "ueof"
 	}
 	addZeroMessages(r, &sp)
+	// an Accept header that matches nothing the mux offers: the response comes
+	// in the request's own representation - whatever other requests, with the
+	// same header and another representation, are being answered meanwhile
+	if sp.Proto == "http" && (sp.Codec == "json" || sp.Codec == "proto") && sp.Handler.Code == 0 && sp.Fault.Kind == "" && r.Chance(1, 4) {
+		sp.Accept = "other"
+	}
 	return sp
 }
 
